@@ -108,9 +108,11 @@ GHOSTS['xq_exc'] = OPT(STR).sort()        # class name of the OSError it raised 
 GHOSTS['mv_done'] = z3.ArraySort(StrS, BoolS)      # targets of moves that succeeded
 GHOSTS['os_failed'] = z3.ArraySort(StrS, BoolS)    # paths on which makedirs / a move raised
 GHOSTS['ser'] = z3.ArraySort(ObjS, BoolS)         # records handed to Cache._operation_to_json
+GHOSTS['bd_resv'] = z3.ArraySort(StrS, BoolS)      # output paths currently reserved in BuildDirs (by their own call)
+GHOSTS['fence_n'] = IntS                            # number of _append_suboperation calls (the fence re-check)
 GHOSTS['ne_wit'] = z3.ArraySort(StrS, StrS)       # a child seen by an rmdir that failed with ENOTEMPTY
 GHOSTS['obs_dir'] = z3.ArraySort(StrS, BoolS)      # paths for which os.path.isdir answered True
-SCRATCH_GHOSTS = ('xq_n', 'xq_val', 'xq_exc', 'mv_done', 'os_failed', 'obs_dir', 'ser', 'ne_wit')
+SCRATCH_GHOSTS = ('xq_n', 'xq_val', 'xq_exc', 'mv_done', 'os_failed', 'obs_dir', 'ser', 'ne_wit', 'bd_resv', 'fence_n')
 
 
 def log_append(lg, e):
